@@ -25,6 +25,9 @@ type witness struct {
 
 func judge(sc updsim.Scenario, out *updsim.Out) kit.Result {
 	w, quiescent, err := updsim.Play(sc)
+	if w != nil {
+		defer w.Close()
+	}
 	if err != nil {
 		return kit.Bad("harness", "%v", err)
 	}
@@ -173,6 +176,12 @@ func plans(thorough bool) []worldPlan {
 				add(cat(common, ch), depth, func(c *updsim.WorldCfg) { c.Server.ChanSlice = sl })
 			}
 		}
+	}
+	// channels the client neither tracks nor has in its storage: the first pushed update makes
+	// the engine create the channel state (handleChannel) and subscribe
+	for _, ch := range seqs([]string{"cmsg@2", "cdel@2"}, 1, chanLen) {
+		add(ch, depth, func(c *updsim.WorldCfg) { c.Untracked = []int{2} })
+		add(cat([]string{"cmsg"}, ch), depth, func(c *updsim.WorldCfg) { c.Untracked = []int{2}; c.Server.ChanSlice = 1 })
 	}
 	add([]string{"cmsg", "cedit"}, depth, nil)
 	add([]string{"cedit", "cmsg"}, depth, nil)
